@@ -261,7 +261,7 @@ def explore(exe, args, timeout):
 
 
 OPTS = ["b0f0", "b0f1", "b1f0", "b1f1"]
-LOCKS = {"L": "aoh", "G": "aohd", "S": "aohd", "T": "aoh", "U": "aohd"}
+NAMED = ["--param", "yields=named"]
 
 
 def plan(ck):
@@ -269,19 +269,213 @@ def plan(ck):
     quick = ck.tier != "thorough"
     seed = str(ck.seed)
     big = ["--max", "100000000"]
-    named = ["--param", "yields=named"]
     P = []
-    # exhaustive DFS, 2 coroutines x 1 round (every lock form x unlock form x 3 partners x 4 options) and 3 coroutines
-    # behind a holder that hops, one worker, manual executor (every yield point) and FairThreadPool(1) (named yields)
     for o in OPTS:
+        # exhaustive DFS over every yield point: k = 2, r = 1 on ONE worker, every lock form x unlock form x 3 partners,
+        # without and with the holder being rescheduled inside its critical section (k2h: the partner queues behind it)
         P.append((["--only", "k2/%s/man1/" % o], ["--mode", "dfs"] + big, True))
-        P.append((["--only", "k3/%s/man1/" % o], ["--mode", "dfs", "--max", "3000000"], True))
-        P.append((["--only", "k2/%s/pool1/" % o], ["--mode", "dfs"] + big + named, True))
-        P.append((["--only", "k3/%s/pool1/" % o], ["--mode", "dfs", "--max", "3000000"] + named, True))
+        P.append((["--only", "k2h/%s/man1/" % o], ["--mode", "dfs"] + big, True))
+        # the same with one spurious weak-CAS failure
+        P.append((["--only", "k2h/%s/man1/" % o], ["--mode", "dfs", "--weak", "1"] + big, True))
+        # FairThreadPool(1): exhaustive for the named yield points (sender word + inside the critical section)
+        P.append((["--only", "k2h/%s/pool1/" % o], ["--mode", "dfs"] + big + NAMED, True))
+        # three coroutines behind a holder that hops, one worker
+        for u in "aoh":
+            P.append((["--exact", "k3/%s/man1/%s" % (o, u)], ["--mode", "dfs"] + big, True))
+            nb = "400" if quick else "2000"
+            P.append((["--exact", "k3/%s/pool1/%s+y" % (o, u)], ["--mode", "dfs", "--pb", "2", "--max", nb] + NAMED, False))
+            P.append((["--exact", "k3/%s/man1/%s+y" % (o, u)], ["--mode", "dfs", "--pb", "2", "--max", nb] + NAMED, False))
+        # two workers: really concurrent lock / unlock
+        if quick:
+            P.append((["--only", "k2/%s/man2/" % o], ["--mode", "dfs", "--pb", "2", "--max", "100"] + NAMED, False))
+            P.append((["--only", "k2h/%s/man2/" % o], ["--mode", "random", "--max", "12", "--seed", seed, "--weak", "1"], False))
+        else:
+            P.append((["--only", "k2/%s/man2/" % o], ["--mode", "dfs", "--pb", "2", "--max", "600"] + NAMED, False))
+            P.append((["--only", "k2h/%s/man2/" % o], ["--mode", "random", "--max", "60", "--seed", seed, "--weak", "1"], False))
+            for sc in ("La-0", "Lh-1", "Lo-0", "Sa-2"):
+                P.append((["--exact", "k2/%s/man2/%s" % (o, sc)], ["--mode", "dfs"] + big + NAMED, True))
+            P.append((["--exact", "k2/%s/man2/La-0" % o], ["--mode", "dfs", "--weak", "1"] + big + NAMED, True))
+        n3 = "40" if quick else "200"
+        for ex in ("man2", "pool2"):
+            P.append((["--only", "k3/%s/%s/" % (o, ex)], ["--mode", "random", "--max", n3, "--seed", seed, "--weak", "1"], False))
+        P.append((["--only", "k2h/%s/pool2/" % o], ["--mode", "random", "--max", "4" if quick else "40", "--seed", seed, "--weak", "1"], False))
+    # seeded random programs: k <= 4 coroutines x r <= 3 rounds x 4 options x mixed forms, 1-2 executors with 1-2 workers
+    nmix, nexec = (24, "80") if quick else (160, "250")
+    for i in range(8):
+        P.append((["--only", "mix/", "--param", "mixes=%d" % (nmix // 8), "--param", "pseed=%d" % (ck.seed * 8 + i)],
+                  ["--mode", "random", "--max", nexec, "--seed", str(ck.seed + i), "--weak", "1"], False))
     return P
 
 
 def main(ck):
-    ck.assumptions = []
-    ck.cov["trusted_base"] = []
+    ck.assumptions = [
+        "FIBER backend: sequentially consistent, switches only at the wrapped yaclib_std operations (memory-order effects of the sender word are C04's subject)",
+        "the model is CoMutex.v: the sender word / receiver list protocol of MutexImpl and the awaiters and guards built on it; the coroutine frames, the Future machinery, the guards' owns-bit and the executors' own code are exercised, not modelled; an executor is modelled by its contract only (a submitted coroutine is started once, at any time, by a worker of that executor)",
+        "a holder's critical section ends (it releases in one of the forms); only the holder unlocks; a coroutine is resumed only by the executor it was submitted to",
+        "tracer reads the word's value through the YACLIB_VERIF after-hook (first 8 bytes of the atomic object); debug build: TryUnlockAwait's asserting load is live and is an event of the model",
+        "plain (non-atomic) order `_receiver = next.next` before Submit(curr) in AwaitUnlock is folded into the hand-over event (the receiver list is private to the token holder)",
+    ]
+    ck.cov["trusted_base"] = [
+        "Coq 8.16.1 kernel + vm_compute (used for replaying traces and in Example witnesses)",
+        "Print Assumptions of every theorem in Properties_C14.v: Closed under the global context (no axioms)",
+        "checks/c14.py trace-to-event mapping (syntactic; infers the unobservable `_receiver != nullptr` test from the releasing thread's next operation) and harness/h_c14.cpp oracle + instrumented executors",
+        "YACLIB_VERIF hooks in the fault layer; FIBER scheduler and fiber atomics (C17-C19 are about those)",
+    ]
     ck.prove("props/Properties_C14.v", ["model/CoMutexObs.vo"])
+    exe, b = vlib.compile_harness("F", [HARNESS], "c14")
+    P = plan(ck)
+    t0 = time.time()
+    results = []
+    limit = 1500 if ck.tier == "thorough" else 170
+    with concurrent.futures.ThreadPoolExecutor(max_workers=max(2, vlib.NPROC - 2)) as ex:
+        futs = [(sel, args, exh, ex.submit(explore, exe, sel + args, limit)) for sel, args, exh in P]
+        for sel, args, exh, f in futs:
+            results.append((sel, args, exh, f.result()))
+    heads, traces = [], []
+    exhaustive_cfgs, bounded_cfgs, random_cfgs = [], [], []
+    for sel, args, exh, (rows, out, err, rc) in results:
+        label = " ".join(sel[1:2])
+        if rc != 0:
+            m = re.search(r"CRASH signal=(\d+) choices=([\d,]*)", out + err)
+            if rc == 124:
+                ck.notes.append("exploration of %s %s hit the time limit; its partial output is not used" % (label, " ".join(args)))
+                continue
+            # the scenario that crashed is the first selected one without a header line in the output
+            done = set(r["scenario"] for r in rows if "mode" in r)
+            lrows, lout, lerr, lrc = runner.run_harness(exe, sel + ["--list"], timeout=60)
+            names = [n for n in lout.split("\n") if n and (n == sel[1] if sel[0] == "--exact" else sel[1] in n)]
+            crashed = next((n for n in names if n not in done), label)
+            weak = args[args.index("--weak") + 1] if "--weak" in args else "0"
+            ck.hits.append(dict(what="harness crashed on %s (rc=%d) %s" % (crashed, rc, (err or out)[-300:]), key="crash",
+                                replay=dict(harness="h_c14", scenario=crashed, choices=m.group(2).strip(",") if m else None,
+                                            weak=weak, params=[a for a in sel if "=" in a] + [a for a in args if a.startswith("yields=")])))
+            continue
+        hs = [r for r in rows if "mode" in r]
+        heads += hs
+        weak = args[args.index("--weak") + 1] if "--weak" in args else "0"
+        yields = "named" if "yields=named" in args else "all"
+        params = [a for a in sel if "=" in a] + [a for a in args if a.startswith("yields=")]
+        for h in hs:
+            if h["mode"] == "dfs" and h["exhaustive"]:
+                exhaustive_cfgs.append((h["scenario"], h["executions"], h["distinct"], weak, yields))
+            elif h["mode"] == "dfs":
+                bounded_cfgs.append((h["scenario"], h["executions"], h["distinct"], h["preemption_bound"]))
+                if exh:
+                    ck.notes.append("DFS of %s did not complete within --max; counted as bounded" % h["scenario"])
+            else:
+                random_cfgs.append((h["scenario"], h["executions"], h["distinct"]))
+        for t in rows:
+            if "trace" in t:
+                t["weak"], t["params"] = weak, params
+                traces.append(t)
+    ck.cov["evaluations"] = sum(h["executions"] for h in heads)
+    ck.cov["exhaustive"] = False   # the exploration mixes exhaustive, bounded and random parts; see the breakdown
+    def summ(cfgs):
+        return dict(scenarios=len(cfgs), executions=sum(c[1] for c in cfgs), distinct_traces=sum(c[2] for c in cfgs))
+    ck.cov["exhaustive_configurations"] = dict(summ(exhaustive_cfgs),
+        one_worker_all_yields=sorted(set(c[0].rsplit("/", 1)[0] for c in exhaustive_cfgs if c[4] == "all"))[:40],
+        named_yields=sorted(set(c[0].rsplit("/", 1)[0] for c in exhaustive_cfgs if c[4] == "named"))[:40],
+        with_spurious_weak_cas_failure=sum(1 for c in exhaustive_cfgs if c[3] != "0"))
+    ck.cov["bounded_configurations"] = summ(bounded_cfgs)
+    ck.cov["random_configurations"] = summ(random_cfgs)
+    ck.cov["explore_wall_s"] = round(time.time() - t0, 1)
+    for t in traces:
+        if t["fail"]:
+            ck.hits.append(dict(what="%s: %s" % (t["scenario"], t["fail"]),
+                                key=re.sub(r"\d+", "N", t["fail"])[:60],
+                                replay=dict(harness="h_c14", scenario=t["scenario"], choices=t["choices"],
+                                            trace=t["trace"], weak=t["weak"], params=t["params"])))
+    # ---- correspondence
+    terms, metas, seen = [], [], set()
+    for t in traces:
+        if t["fail"]:
+            continue
+        try:
+            params, evs, entered, tries = to_events(t["trace"])
+        except ValueError as e:
+            ck.gen_obligation("correspondence CoMutex (trace vocabulary)", False, "%s in %s: %s" % (e, t["scenario"], t["trace"]))
+            continue
+        term = "obs_nat %s [%s]" % (params, "; ".join(evs))
+        if term in seen:
+            continue
+        seen.add(term)
+        terms.append(term)
+        metas.append((t, entered, tries, len(evs)))
+    header = ("From Coq Require Import List. Import ListNotations.\n"
+              "From YV Require Import model.CoMutex model.CoMutexObs.\n")
+    t1 = time.time()
+    res, logs = vlib.coq_eval_cases(header, terms, "c14", shard=400, timeout=1200) if terms else ([], [])
+    ck.cov["replay_wall_s"] = round(time.time() - t1, 1)
+    validated, nontriv, bad = 0, 0, []
+    flat = lambda l: [x for p in l for x in p]
+    for (t, entered, tries, nev), r in zip(metas, res):
+        if r is None:
+            bad.append((t, "model evaluation failed"))
+            continue
+        if r[0] == 0:
+            bad.append((t, "model rejects event #%d of %d" % (r[1], nev)))
+            continue
+        quiescent, free, nrecv, ntok, alldone, ninside = r[1:7]
+        i = 7
+        ne = r[i]; ment = r[i + 1:i + 1 + 2 * ne]; i += 1 + 2 * ne
+        nt = r[i]; mtry = r[i + 1:i + 1 + 2 * nt]; i += 1 + 2 * nt
+        npush = r[i]; mpush = r[i + 1:i + 1 + npush]; i += 1 + npush
+        nhand = r[i]; mhand = r[i + 1:i + 1 + nhand]; i += 1 + nhand
+        ngrants = r[i]
+        if ment != flat(entered) or mtry != flat(tries):
+            bad.append((t, "model predicts entries %s TryLock answers %s, implementation showed %s %s" % (ment, mtry, flat(entered), flat(tries))))
+        elif (quiescent, free, nrecv, ntok, alldone, ninside) != (1, 1, 0, 0, 1, 0):
+            bad.append((t, "model not quiescent/free/finished at the end of the implementation run (quiescent=%d free=%d receiver=%d tokens=%d done=%d inside=%d)" % (quiescent, free, nrecv, ntok, alldone, ninside)))
+        elif npush != nhand or sorted(mpush) != sorted(mhand) or ngrants != ne:
+            bad.append((t, "model: %d arrivals but %d hand-overs, %d grants for %d entries" % (npush, nhand, ngrants, ne)))
+        else:
+            validated += 1
+            if contended(t["trace"]):
+                nontriv += 1
+    ck.cov["traces_validated_against_impl"] = validated
+    ck.cov["distinct_traces"] = len(traces)
+    ck.cov["distinct_model_replays"] = len(terms)
+    ck.cov["distinct_nontrivial"] = nontriv
+    ck.cov["rule"] = ("every distinct implementation trace (operations on the sender word with their values, executor Submit markers, "
+                      "coroutine markers) mapped to CoMutex.v events and replayed with vm_compute; the model must accept every event and "
+                      "predict the order of critical-section entries (and which of them had queued), every TryLock answer, and end "
+                      "quiescent / free / all finished with arrivals = hand-overs.  Exhaustive DFS over every scheduling decision (switch "
+                      "before every wrapped operation, next fiber, which queued job a worker picks) for k = 2 coroutines x 1 round on ONE "
+                      "worker of the manual executor: 18 lock/unlock form pairs x 3 partners x 4 <Batching,FIFO> options, without and with "
+                      "the holder rescheduled inside its critical section, also with one spurious weak-CAS failure; for 3 coroutines "
+                      "behind a hopping holder; 'yields=named' DFS (switch only before operations on the sender word and inside critical "
+                      "sections; exhaustive for that decision set) on FairThreadPool(1) and, thorough tier, for 8 form pairs x 4 options on "
+                      "TWO workers; preemption-bounded DFS (--pb, NOT exhaustive) for the bystander TryLock thread and for all form pairs "
+                      "on two workers; seeded random walks (--weak 1) for 3 coroutines on 2 workers / FairThreadPool(2) and for random "
+                      "programs (k <= 4, r <= 3, mixed forms, hops, 1-2 executors x 1-2 workers, bystander); non-trivial = a pushing CAS "
+                      "succeeded (somebody queued), or a CAS on the sender word failed, or a TryLock was refused")
+    pick = lambda pred: [x for x in traces if pred(x) and contended(x["trace"])][:1]
+    ck.cov["samples"] = [dict(scenario=t["scenario"], trace=t["trace"], choices=t["choices"], executions=t["count"])
+                         for t in (pick(lambda x: x["scenario"].startswith("k2h/b1f1/man1/")) +
+                                   pick(lambda x: x["scenario"].startswith("k3/b1f0/man1/")) +
+                                   pick(lambda x: x["scenario"].startswith("k2/b0f1/man2/")) +
+                                   pick(lambda x: x["scenario"].startswith("mix/") and " pool " in x["scenario"]))]
+    for t, why in bad[:10]:
+        ck.broken.append(dict(name="correspondence CoMutex.run vs implementation on %s" % t["scenario"],
+                              detail="%s\ntrace: %s\nchoices: %s\nweak: %s params: %s" % (why, t["trace"], t["choices"], t["weak"], " ".join(t["params"]))))
+    if len(bad) > 10:
+        ck.notes.append("%d traces in total disagree with the model" % len(bad))
+    if not traces:
+        ck.broken.append(dict(name="correspondence CoMutex.run vs implementation", detail="harness produced no traces"))
+
+
+def replay(ck, path):
+    d = json.load(open(path))
+    rp = d.get("replay") or {}
+    if not rp.get("scenario") or rp.get("choices") is None:
+        print("nothing to replay: %s" % json.dumps(d)[:2000])
+        return 0
+    exe, b = vlib.compile_harness("F", [HARNESS], "c14")
+    args = ["--mode", "replay", "--exact", rp["scenario"], "--choices", rp["choices"], "--weak", str(rp.get("weak", "0"))]
+    for p in rp.get("params", []):
+        args += ["--param", p]
+    rows, out, err, rc = runner.run_harness(exe, args)
+    print(out[-6000:])
+    bad = any(r.get("fail") for r in rows if "trace" in r)
+    print("replay: %s" % ("the failure reproduces" if bad or rc != 0 else "no failure"))
+    return 1 if bad or rc != 0 else 0
